@@ -171,8 +171,14 @@ class Harness(object):
         self.ignored = set()
         self.endpoints = [connection.DefaultEndPoint('10.0.0.%d' % (i + 1), 9042) for i in range(cfg['nhosts'])]
         self.ep_index = dict((ep, i) for i, ep in enumerate(self.endpoints))
-        self.hosts = [None] * cfg['nhosts']
-        self.removed = [False] * cfg['nhosts']
+        # Host OBJECTS: slot i and slot i + nhosts share endpoint i (a node removed and a replacement node added under its address)
+        self.neps = cfg['nhosts']
+        self.nobj = 2 * cfg['nhosts']
+        self.hosts = [None] * self.nobj
+        self.removed = [False] * self.nobj
+        self.adding = None
+        self.firing = None
+        self.ign_changed = set()      # endpoints whose distance changed during the history
 
         class FakeConn(object):
             is_closed = False
@@ -182,6 +188,8 @@ class Harness(object):
             orphaned_threshold_reached = False
             is_control_connection = False
             _product_type = None
+            signaled_error = False
+            last_error = None
 
             def __init__(self, hid, control):
                 self.hid = hid
@@ -202,8 +210,9 @@ class Harness(object):
                     # meanwhile (main thread), then releases the gate with the outcome.  Strict hand-off: only one
                     # of the two threads ever runs.
                     pr['entered'] = True
-                    H.log.append(('A', 'attempt', hid))
-                    H.attempts.append((hid, 'data', 'split', H.removed[hid]))
+                    pobj = H.hid(pr['handler'].host)
+                    H.log.append(('A', 'attempt', pobj))
+                    H.attempts.append((hid, 'data', 'split', H.removed[pobj]))
                     pr['started'].set()
                     pr['gate'].wait()
                     o = pr['outcome']
@@ -212,10 +221,12 @@ class Harness(object):
                     if o == 'auth':
                         raise cassandra.AuthenticationFailed('scripted auth failure')
                     return cls(hid, control)
-                H.attempts.append((hid, 'control' if control else 'data', o, H.removed[hid]))
-                H.attempt_after_shutdown.append(bool(H.cluster.is_shutdown))      # did this attempt START after Cluster.shutdown?
+                fobj = H.hid(H.firing.host) if H.firing is not None else None
+                H.attempts.append((hid, 'control' if control else 'data', o, bool(fobj is not None and H.removed[fobj])))
+                # did this attempt START after Cluster.shutdown (or, for a session's connection, after Session.shutdown)?
+                H.attempt_after_shutdown.append(bool(H.cluster.is_shutdown or (not control and any(x.is_shutdown for x in H.sessions))))
                 if H.in_recon:
-                    H.log.append(('A', 'attempt', hid))
+                    H.log.append(('A', 'attempt', fobj if fobj is not None else hid))
                 if o == 'fail':
                     raise connection.ConnectionException('scripted connect failure', endpoint=endpoint)
                 if o == 'auth':
@@ -263,7 +274,9 @@ class Harness(object):
 
             # control-connection protocol (C45): outside the property, answers are canned
             def register_watchers(self, *a, **k):
-                pass
+                if H.after_handshake is not None:      # C45: something happens after _try_connect's own shutdown check
+                    cb, H.after_handshake = H.after_handshake, None
+                    cb()
 
             def wait_for_responses(self, *msgs, **kwargs):
                 return [(True, None) for _ in msgs]
@@ -276,6 +289,7 @@ class Harness(object):
 
         self.FakeConn = FakeConn
         self.after_connect = None
+        self.after_handshake = None
         self.attempt_after_shutdown = []
         self.probes = []            # in-flight split reconnection attempts
         self.probe_by_thread = {}
@@ -401,6 +415,16 @@ class Harness(object):
         return s
 
     def hid(self, host):
+        """slot of a Host OBJECT (identity, not equality: Host.__eq__ compares endpoints)"""
+        for i, h in enumerate(self.hosts):
+            if h is host:
+                return i
+        if self.adding is not None:          # the object being created by add_host right now
+            self.hosts[self.adding] = host
+            return self.adding
+        raise KeyError(host)
+
+    def epi(self, host):
         return self.ep_index[host.endpoint]
 
     def close(self):
@@ -432,7 +456,7 @@ class Harness(object):
         if name == 'shutdown' and hasattr(fn, '__self__') and isinstance(fn.__self__, self.pool_mod.HostConnection):
             p = fn.__self__
             sid = [i for i, s in enumerate(self.sessions) if p._session.__eq__(s) is True or p._session._pools is s._pools]
-            return ('poolshut', self.hid(p.host), sid[0] if sid else -1)
+            return ('poolshut', self.epi(p.host), sid[0] if sid else -1)
         if name == 'run' and hasattr(fn, '__self__') and fn.__self__ in self.recons:
             return ('reconrun', self.recons.index(fn.__self__))
         return ('other', name)
@@ -446,7 +470,7 @@ class Harness(object):
 
     def snapshot(self):
         hs = []
-        for i in range(self.cfg['nhosts']):
+        for i in range(self.nobj):
             h = self.hosts[i]
             if h is None:
                 hs.append({'present': 0})
@@ -476,11 +500,14 @@ class Harness(object):
     # ------------------------------------------------------------------ events (one call into the real code each)
     def enabled(self):
         ev = []
-        for i in range(self.cfg['nhosts']):
+        for i in range(self.nobj):
             if self.hosts[i] is None:
-                ev.append(('add', i))
+                if i < self.neps or self.removed[i - self.neps]:
+                    ev.append(('add', i))
             elif not self.removed[i]:
                 ev += [('fail', i), ('sdown', i), ('sup', i), ('rem', i)]
+        for e in range(self.neps):
+            ev.append(('setign', e, 0 if e in self.ignored else 1))
         for k, t in enumerate(self.scheduler.timers):
             for o in ('ok', 'fail', 'auth'):
                 ev.append(('recon', k, o))
@@ -499,11 +526,13 @@ class Harness(object):
     def applicable(self, ev):
         kind = ev[0]
         if kind in ('fail', 'sdown', 'sup'):
-            return self.hosts[ev[1]] is not None
+            return ev[1] < self.nobj and self.hosts[ev[1]] is not None
         if kind == 'add':
-            return self.hosts[ev[1]] is None
+            return ev[1] < self.nobj and self.hosts[ev[1]] is None and (ev[1] < self.neps or self.removed[ev[1] - self.neps])
+        if kind == 'setign':
+            return True
         if kind == 'rem':
-            return self.hosts[ev[1]] is not None and not self.removed[ev[1]]
+            return ev[1] < self.nobj and self.hosts[ev[1]] is not None and not self.removed[ev[1]]
         if kind in ('recon', 'pstart'):
             return ev[1] < len(self.scheduler.timers)
         if kind == 'pfinish':
@@ -522,7 +551,7 @@ class Harness(object):
             h = self.hosts[ev[1]]
             # every connection to the host dies, then the failure is signalled (what a pool / the control connection does)
             for cn in self.conns:
-                if cn.hid == ev[1] and not cn.is_closed:
+                if cn.hid == ev[1] % self.neps and not cn.is_closed:
                     cn.is_defunct = True
             c.signal_connection_failure(h, self.cassandra.connection.ConnectionException('scripted', endpoint=h.endpoint), is_host_addition=False)
         elif kind == 'sdown':
@@ -530,8 +559,15 @@ class Harness(object):
         elif kind == 'sup':
             c.on_up(self.hosts[ev[1]])
         elif kind == 'add':
-            h, new = c.add_host(self.endpoints[ev[1]], signal=True)
+            self.adding = ev[1]
+            try:
+                h, new = c.add_host(self.endpoints[ev[1] % self.neps], signal=True)
+            finally:
+                self.adding = None
             self.hosts[ev[1]] = h
+        elif kind == 'setign':
+            (self.ignored.add if ev[2] else self.ignored.discard)(ev[1])
+            self.ign_changed.add(ev[1])
         elif kind == 'rem':
             self.removed[ev[1]] = True
             c.remove_host(self.hosts[ev[1]])
@@ -539,14 +575,16 @@ class Harness(object):
             fn, args, kwargs = self.scheduler.timers.pop(ev[1])
             r = getattr(fn, '__self__', None)
             if r is not None and hasattr(r, 'host'):
-                self.outcome[self.hid(r.host)] = ev[2]
+                self.outcome[self.epi(r.host)] = ev[2]
             self.in_recon = True
+            self.firing = r
             try:
                 fn(*args, **kwargs)         # the scheduler hands it to the executor; collapsed into one step
             except Exception:
                 pass                        # _Scheduler._log_if_failed
             finally:
                 self.in_recon = False
+                self.firing = None
         elif kind == 'pstart':
             fn, args, kwargs = self.scheduler.timers.pop(ev[1])
             pr = {'handler': fn.__self__, 'entered': False, 'started': threading.Event(), 'gate': threading.Event(), 'outcome': None}
@@ -576,10 +614,10 @@ class Harness(object):
         elif kind == 'run':
             d = self.task_desc(self.executor.queue[ev[1]])
             if d[0] == 'addpool':
-                self.outcome[d[1]] = ev[2]
+                self.outcome[d[1] % self.neps] = ev[2]
             if d[0] == 'down':
                 h = self.hosts[d[1]]
-                if h.is_up is not True and d[1] not in self.ignored and any(
+                if h.is_up is not True and (d[1] % self.neps) not in self.ignored and any(
                         s._pools.get(h) is not None and s._pools[h].get_state()['open_count'] > 0 for s in self.sessions):
                     self.discounted_nonup.add(d[1])
             self.executor.run(ev[1])
